@@ -38,7 +38,7 @@ impl Check for C07 {
     fn assumptions(&self) -> Vec<String> {
         vec![
             "the model's grouping equality is value equality with NULL = NULL and 0.0 = -0.0 (the documented SqlValue Eq)".into(),
-            "in 80% of the budget the columnar gate is forced off (verif hook) while its known findings are open; the rest runs with the gate on and attributes differences to the columnar path".into(),
+            "ungrouped queries the columnar gate accepts are answered by the columnar path (class columnar_path_taken); a difference there that the two recorded DOUBLE defects cannot explain is reported under c07.trigger.columnar_path (its six defects were repaired in /repo, the entry is fixed and suppresses nothing)".into(),
         ]
     }
     fn cases(&self, tier: Tier) -> u64 {
@@ -110,14 +110,14 @@ impl Check for C07 {
         if matches_model(&m, &got) {
             return Verdict::Pass;
         }
-        let sig = if columnar {
-            "c07.trigger.columnar_path".to_string()
-        } else if is_double(&case.table, &where_cols(q)) {
+        let sig = if is_double(&case.table, &where_cols(q)) {
             // scan-level filter compares DOUBLE with an epsilon of 1e-9
             "c07.trigger.float_where_epsilon".to_string()
         } else if is_double(&case.table, &agg_cols(q)) || is_double(&case.table, &q.group_by) {
             // DOUBLE arithmetic / SUM / AVG are carried out in f32
             "c07.trigger.float_f32_precision".to_string()
+        } else if columnar {
+            "c07.trigger.columnar_path".to_string()
         } else if m.rows.len() != got.len() {
             format!("c07.row_count.{}{}", if q.group_by.is_empty() { "ungrouped" } else { "grouped" }, if q.having.is_some() { ".having" } else { "" })
         } else {
